@@ -55,6 +55,8 @@ class Monitor {
         void on_setvar(int cmd, int var, const bytes &val);
         void on_fresh();
         void finish(bool drained);
+        void flush_deferred(); // premature-OK verdict, decided at the end of the run
+        std::string deferred_ok;
 
         // --- state for the engine
         bool model_ok() const { return !desync && !off; }
